@@ -1,9 +1,86 @@
+import PbBss.Model.Effects
+import PbBss.Model.TrainerSM
 import Driver.Util
-/-! line-protocol operations of the `Effects` models (stub: filled in by the owner of these models) -/
+/-! line-protocol operations of the C20 models (`driver_effects`); every token is a decimal integer.
+
+* `sm c n d₁ u₁ … dₙ uₙ`      trainer state machine: constructor dimension `c` (0 = None, else dimension+1), `n` fits with
+                             feature dimension `dᵢ` and `uᵢ` = 1 iff at least one M-step runs.
+      → per fit `accepted table` (table: 0 = none, else dimension+1), then the final `dimension cachedFor` (same coding)
+* `cert np p… ns stmt… nt entry…`   certificate check of one effect program
+      stmt: `0 x` alloc | `1 x k y₁…y_k` alias | `2 x` write ;   entry: `x k q₁…q_k`
+      → `checkCert checkAlias nW w₁…` (derived mutated parameters)
+* `trace kind n`             E/M-step trace of the transcribed fit loop: kind 0 = started from affiliations, 1 = from a model
+      → sequence of 0 (E-step) / 1 (M-step)
+* `split n₁ k m₁…m_k`        trace of consecutive fits n₁, m₁, …, m_k (each continued from the previous model) -/
+open PbBss.TrainerSM Eff
 namespace Driver
+
+def encOpt : Option Nat → Nat
+  | none => 0
+  | some d => d + 1
+
+def decOpt (n : Nat) : Option Nat := if n = 0 then none else some (n - 1)
+
+/-- parse `n` statements starting at token `i`; returns the statements and the next index -/
+partial def parseStmts (a : Array String) : Nat → Nat → List Stmt → List Stmt × Nat
+  | 0, i, acc => (acc.reverse, i)
+  | n + 1, i, acc =>
+    match tokNat a i with
+    | 0 => parseStmts a n (i + 2) (.alloc (tokNat a (i + 1)) :: acc)
+    | 1 =>
+      let x := tokNat a (i + 1); let k := tokNat a (i + 2)
+      let ys := (List.range k).map fun j => tokNat a (i + 3 + j)
+      parseStmts a n (i + 3 + k) (.alias x ys :: acc)
+    | _ => parseStmts a n (i + 2) (.write (tokNat a (i + 1)) :: acc)
+
+partial def parseTab (a : Array String) : Nat → Nat → List (Var × List Var) → List (Var × List Var)
+  | 0, _, acc => acc.reverse
+  | n + 1, i, acc =>
+    let x := tokNat a i; let k := tokNat a (i + 1)
+    let qs := (List.range k).map fun j => tokNat a (i + 2 + j)
+    parseTab a n (i + 2 + k) ((x, qs) :: acc)
+
+/-- steps are recorded as data: E-step = 0, M-step = 1 -/
+def trM (g : List Nat) : List Nat := g ++ [1]
+def trE (t : List Nat) : List Nat := t ++ [0]
 
 def opsEffects (a : Array String) : Option String :=
   match a[0]! with
+  | "sm" =>
+    let c := decOpt (tokNat a 1)
+    let n := tokNat a 2
+    let ops : List (Op Unit) := (List.range n).map fun i => ⟨tokNat a (3 + 2 * i), tokNat a (4 + 2 * i) != 0, ()⟩
+    let run : Option Nat → Unit → Option Nat := fun t _ => t
+    let os := outs run (init c) ops
+    let s := runOps run (init c) ops
+    let enc := os.flatMap fun o => match o with
+      | .ok t _ => [1, encOpt t]
+      | .reject => [0, 0]
+    some (fmtNats (enc ++ [encOpt s.dimension, encOpt s.cachedFor]))
+  | "cert" =>
+    let np := tokNat a 1
+    let params := (List.range np).map fun j => tokNat a (2 + j)
+    let ns := tokNat a (2 + np)
+    let (stmts, i) := parseStmts a ns (3 + np) []
+    let nt := tokNat a i
+    let tab := parseTab a nt (i + 1) []
+    let p : Prog := ⟨params, stmts⟩
+    let may := mayOf tab
+    let w := (writesTo p may).eraseDups
+    some (fmtNats ([if checkCert p may then 1 else 0, if checkAlias p may then 1 else 0, w.length] ++ w))
+  | "trace" =>
+    let n := tokNat a 2
+    let r := if tokNat a 1 == 0 then fitAff trM trE n [] else fitModel trM trE n [] []
+    some (fmtNats (r.getD []))
+  | "split" =>
+    let n1 := tokNat a 1
+    let k := tokNat a 2
+    let ms := (List.range k).map fun j => tokNat a (3 + j)
+    let start := fitAff trM trE n1 []
+    let r := ms.foldl (fun (m : Option (List Nat)) n => match m with
+      | some θ => fitModel trM trE n θ []
+      | none => none) start
+    some (fmtNats (r.getD []))
   | _ => none
 
 end Driver
